@@ -43,3 +43,24 @@ def _algebra_jobs(tier):
 ALGEBRA = dict(module='c14', rules={'O3', 'O4', 'O6'}, jobs=_algebra_jobs, global_rules=False,
                why="copy() and arithmetic hand out variables that share no storage and no boundary-condition object with their operands "
                    "(also on repeated calls), so edits of one never reach the other")
+
+
+def _periodic_jobs(tier):
+    """every admissible both-flag and single-flag periodic configuration of each class (as in C03's own quick tier)"""
+    from .c03 import jobs as _c03_jobs
+    return [j for j in _c03_jobs('quick' if tier == 'quick' else tier) if len(j) == 3 and j[1] != ()]
+
+
+PERIODIC = dict(module='c03', rules={'B3'}, jobs=_periodic_jobs, global_rules=False,
+                why="on an axis declared periodic (both faces or one face flagged) the ghost values wrap and the boundary rows are satisfied by "
+                    "them: the periodic closure of the flux balance and of the solved system (the unequal-end-cells finding is listed for the "
+                    "dependent property too)")
+
+
+def _intbc_jobs(tier):
+    return [(c, (), tier, 'int') for c in MESH_CLASSES]
+
+
+INTBC = dict(module='c03', rules={'B1', 'B2'}, jobs=_intbc_jobs, global_rules=False,
+             why="integer-dtype cell values (whole-number data are an int array in one unit system / on one grid and floats in another) "
+                 "are not truncated in the ghost layer")
